@@ -627,27 +627,42 @@ Proof.
   intros A l z H Hz. rewrite forallb_forall in H. specialize (H z Hz). destruct z; [discriminate|discriminate H].
 Qed.
 
-Lemma only_removals_lookup : forall rho f v,
-  (forall ms, lookup f v = Some ms -> forall m, In m ms -> In m (get rho v)) ->
-  lookup (only_removals rho f) v = lookup f v.
+Lemma only_removals_none : forall isany rho f v,
+  existsb isany (get rho v) = true -> lookup (only_removals isany rho f) v = None.
 Proof.
-  intros rho f v. induction f as [|[w ms] f IH]; intros H; [reflexivity|].
+  intros isany rho f v Ha. induction f as [|[w ms] f IH]; [reflexivity|].
+  unfold only_removals in *. cbn [filter fst snd].
+  destruct (w =? v) eqn:E.
+  - apply Nat.eqb_eq in E. subst w. rewrite Ha. cbn [negb andb]. exact IH.
+  - destruct (negb (existsb isany (get rho w)) && forallb (fun m => existsb (Nat.eqb m) (get rho w)) ms);
+      simpl; rewrite ?E; exact IH.
+Qed.
+
+Lemma only_removals_lookup : forall isany rho f v,
+  existsb isany (get rho v) = false ->
+  (forall ms, lookup f v = Some ms -> forall m, In m ms -> In m (get rho v)) ->
+  lookup (only_removals isany rho f) v = lookup f v.
+Proof.
+  intros isany rho f v Ha. induction f as [|[w ms] f IH]; intros H; [reflexivity|].
   unfold only_removals in *. cbn [filter fst snd].
   destruct (w =? v) eqn:E.
   - apply Nat.eqb_eq in E. subst w.
     assert (Hk : forallb (fun m => existsb (Nat.eqb m) (get rho v)) ms = true).
     { apply forallb_forall. intros m Hm. apply existsb_exists. exists m. split; [|apply Nat.eqb_refl].
       apply (H ms); auto. simpl. now rewrite Nat.eqb_refl. }
-    rewrite Hk. simpl. now rewrite Nat.eqb_refl.
-  - assert (Ht : lookup (filter (fun b => forallb (fun m => existsb (Nat.eqb m) (get rho (fst b))) (snd b)) f) v = lookup f v).
+    rewrite Ha, Hk. simpl. now rewrite Nat.eqb_refl.
+  - assert (Ht : lookup (filter (fun b => negb (existsb isany (get rho (fst b)))
+                                          && forallb (fun m => existsb (Nat.eqb m) (get rho (fst b))) (snd b)) f) v = lookup f v).
     { apply IH. intros ms' Hl. apply H. simpl. now rewrite E. }
-    destruct (forallb (fun m => existsb (Nat.eqb m) (get rho w)) ms); simpl; rewrite ?E; exact Ht.
+    destruct (negb (existsb isany (get rho w)) && forallb (fun m => existsb (Nat.eqb m) (get rho w)) ms);
+      simpl; rewrite ?E; exact Ht.
 Qed.
 
 Section Blocks.
   Variable acc : typ -> member -> bool -> bool.
   Variable narrow : typ -> member -> list member.
   Variable posof : var -> posn.
+  Variable isany : member -> bool.
   Hypothesis H1 : forall T m ex, acc T m ex = true -> narrow T m = [m].
   Variable x : var.
   Variable sigma : var -> member.
@@ -657,6 +672,7 @@ Section Blocks.
   Notation gd := (good x sigma).
   Notation xs := (xset x sigma).
 
+  Definition noany (S : list member) : Prop := forall m, In m S -> isany m = false.
   Definition isnone (o : option rtype) : bool := match o with None => true | Some _ => false end.
   (* does member m fall through the statement / block (reference semantics) *)
   Definition NRs (s : stmt) (m : member) : bool := isnone (fst (sem_stmt acc posof (sg m) s)).
@@ -670,16 +686,16 @@ Section Blocks.
     end.
 
   Definition stmt_ok (s : stmt) : Prop :=
-    forall rho, oth rho -> nonempty (get rho x) ->
-      let '(res, errs, ft) := eval_stmt acc narrow posof rho s in
+    forall rho, oth rho -> nonempty (get rho x) -> noany (get rho x) ->
+      let '(res, errs, ft) := eval_stmt acc narrow posof isany rho s in
       seteq res (map (fun m => fst (sem_stmt acc posof (sg m) s)) (get rho x)) /\
       seteq errs (flat_map (fun m => snd (sem_stmt acc posof (sg m) s)) (get rho x)) /\
       ft_ok rho (get rho x) (NRs s) ft.
 
   Definition block_ok (b : block) : Prop :=
     forall rho0 narrowed rho possible, rho = narrowed ++ rho0 ->
-      oth rho0 -> gd narrowed -> nonempty (get rho x) ->
-      let '(res, errs, ft) := eval_block acc narrow posof rho b possible narrowed in
+      oth rho0 -> gd narrowed -> nonempty (get rho x) -> noany (get rho x) ->
+      let '(res, errs, ft) := eval_block acc narrow posof isany rho b possible narrowed in
       seteq res (map Some possible ++ map (fun m => fst (sem_block acc posof (sg m) b)) (get rho x)) /\
       seteq errs (flat_map (fun m => snd (sem_block acc posof (sg m) b)) (get rho x)) /\
       ft_ok rho0 (get rho x) (NRb b) ft.
@@ -775,18 +791,18 @@ Section Blocks.
   Lemma blocks_all : (forall s, stmt_ok s) /\ (forall b, block_ok b).
   Proof.
     apply (stmt_block_ind stmt_ok block_ok); unfold stmt_ok, block_ok.
-    - (* SPass *) intros rho Ho Hne. cbn [eval_stmt]. destruct (const_sets _ None [] _ Hne) as [A B].
+    - (* SPass *) intros rho Ho Hne Hna. cbn [eval_stmt]. destruct (const_sets _ None [] _ Hne) as [A B].
       split; [exact A|split; [exact B|]]. unfold ft_ok. split; [apply good_nil|split].
       + split; [exact Ho|]. intros z. rewrite filter_In. unfold NRs. simpl. tauto.
       + destruct Hne as [z Hz]. exists z. apply filter_In. split; auto.
-    - (* SReturn *) intros r rho Ho Hne. cbn [eval_stmt]. destruct (const_sets _ (Some r) [] _ Hne) as [A B].
+    - (* SReturn *) intros r rho Ho Hne Hna. cbn [eval_stmt]. destruct (const_sets _ (Some r) [] _ Hne) as [A B].
       split; [exact A|split; [exact B|]]. intros m Hm. reflexivity.
-    - (* SError *) intros m rho Ho Hne. cbn [eval_stmt]. destruct (const_sets _ None [m] _ Hne) as [A B].
+    - (* SError *) intros m rho Ho Hne Hna. cbn [eval_stmt]. destruct (const_sets _ None [m] _ Hne) as [A B].
       split; [exact A|split; [exact B|]]. unfold ft_ok. split; [apply good_nil|split].
       + split; [exact Ho|]. intros z. rewrite filter_In. unfold NRs. simpl. tauto.
       + destruct Hne as [z Hz]. exists z. apply filter_In. split; auto.
     - (* SIf *)
-      intros c b1 IH1 b2 IH2 rho Ho Hne.
+      intros c b1 IH1 b2 IH2 rho Ho Hne Hna.
       set (S := get rho x) in *. set (P := Pc acc posof x sigma c).
       pose proof (proj1 (cond_all_ok acc narrow posof H1 x sigma) c rho Ho Hne) as Hc. fold S in Hc. fold P in Hc.
       assert (Hsem1 : map (fun m => fst (sem_stmt acc posof (sg m) (SIf c b1 b2))) S =
@@ -801,10 +817,12 @@ Section Blocks.
         destruct Hc as [NT [NF [Gl [Gr [Kl [Kr [[Ol Sl] [Or Sr]]]]]]]].
         assert (Nl : nonempty (get (l ++ rho) x)) by (destruct NT as [z Hz]; exists z; now apply Sl).
         assert (Nr : nonempty (get (r ++ rho) x)) by (destruct NF as [z Hz]; exists z; now apply Sr).
-        pose proof (IH1 (l ++ rho) [] (l ++ rho) [] eq_refl Ol (good_nil x sigma) Nl) as I1.
-        pose proof (IH2 (r ++ rho) [] (r ++ rho) [] eq_refl Or (good_nil x sigma) Nr) as I2.
-        destruct (eval_block acc narrow posof (l ++ rho) b1 [] []) as [[r1 e1] f1].
-        destruct (eval_block acc narrow posof (r ++ rho) b2 [] []) as [[r2 e2] f2].
+        assert (Al : noany (get (l ++ rho) x)) by (intros m Hm; apply Sl in Hm; apply filter_In in Hm; apply Hna; tauto).
+        assert (Ar : noany (get (r ++ rho) x)) by (intros m Hm; apply Sr in Hm; apply filter_In in Hm; apply Hna; tauto).
+        pose proof (IH1 (l ++ rho) [] (l ++ rho) [] eq_refl Ol (good_nil x sigma) Nl Al) as I1.
+        pose proof (IH2 (r ++ rho) [] (r ++ rho) [] eq_refl Or (good_nil x sigma) Nr Ar) as I2.
+        destruct (eval_block acc narrow posof isany (l ++ rho) b1 [] []) as [[r1 e1] f1].
+        destruct (eval_block acc narrow posof isany (r ++ rho) b2 [] []) as [[r2 e2] f2].
         destruct I1 as [A1 [B1 F1]]. destruct I2 as [A2 [B2 F2]]. cbn [map app] in A1, A2.
         pose proof (ft_join_ok rho l (filter P S) (NRb b1) f1 Gl (conj Ol Sl) Sl F1) as J1.
         pose proof (ft_join_ok rho r (filter (fun m => negb (P m)) S) (NRb b2) f2 Gr (conj Or Sr) Sr F2) as J2.
@@ -852,8 +870,9 @@ Section Blocks.
         { intros z Hz. destruct (P z) eqn:E; auto. exfalso. apply (EF z). apply filter_In. rewrite E. auto. }
         assert (Nl : nonempty (get (l ++ rho) x)).
         { destruct Hne as [z Hz]. exists z. apply Sl. apply filter_In. split; auto. }
-        pose proof (IH1 (l ++ rho) [] (l ++ rho) [] eq_refl Ol (good_nil x sigma) Nl) as I1.
-        destruct (eval_block acc narrow posof (l ++ rho) b1 [] []) as [[r1 e1] f1].
+        assert (Al : noany (get (l ++ rho) x)) by (intros m Hm; apply Sl in Hm; apply filter_In in Hm; apply Hna; tauto).
+        pose proof (IH1 (l ++ rho) [] (l ++ rho) [] eq_refl Ol (good_nil x sigma) Nl Al) as I1.
+        destruct (eval_block acc narrow posof isany (l ++ rho) b1 [] []) as [[r1 e1] f1].
         destruct I1 as [A1 [B1 F1]]. cbn [map app] in A1.
         pose proof (ft_join_ok rho l (filter P S) (NRb b1) f1 Gl (conj Ol Sl) Sl F1) as J1.
         split; [|split].
@@ -878,8 +897,9 @@ Section Blocks.
         { intros z Hz. destruct (P z) eqn:E; auto. exfalso. apply (ET z). apply filter_In. auto. }
         assert (Nr : nonempty (get (r ++ rho) x)).
         { destruct Hne as [z Hz]. exists z. apply Sr. apply filter_In. split; auto. now rewrite (Hnone z Hz). }
-        pose proof (IH2 (r ++ rho) [] (r ++ rho) [] eq_refl Or (good_nil x sigma) Nr) as I2.
-        destruct (eval_block acc narrow posof (r ++ rho) b2 [] []) as [[r2 e2] f2].
+        assert (Ar : noany (get (r ++ rho) x)) by (intros m Hm; apply Sr in Hm; apply filter_In in Hm; apply Hna; tauto).
+        pose proof (IH2 (r ++ rho) [] (r ++ rho) [] eq_refl Or (good_nil x sigma) Nr Ar) as I2.
+        destruct (eval_block acc narrow posof isany (r ++ rho) b2 [] []) as [[r2 e2] f2].
         destruct I2 as [A2 [B2 F2]]. cbn [map app] in A2.
         pose proof (ft_join_ok rho r (filter (fun m => negb (P m)) S) (NRb b2) f2 Gr (conj Or Sr) Sr F2) as J2.
         split; [|split].
@@ -900,7 +920,7 @@ Section Blocks.
           -- intros m Hm. rewrite NRs_if. fold P. rewrite (Hnone m Hm). apply J2. apply filter_In. rewrite (Hnone m Hm). auto.
       + contradiction.
     - (* BNil *)
-      intros rho0 narrowed rho possible Erho Ho Hgn Hne. cbn [eval_block].
+      intros rho0 narrowed rho possible Erho Ho Hgn Hne Hna. cbn [eval_block].
       destruct (const_sets _ None [] _ Hne) as [A B]. split; [|split].
       + intros z. rewrite !in_app_iff. rewrite <- (A z). tauto.
       + exact B.
@@ -909,11 +929,11 @@ Section Blocks.
           intros z. rewrite filter_In. unfold NRb. simpl. tauto.
         * destruct Hne as [z Hz]. exists z. apply filter_In. split; auto.
     - (* BCons *)
-      intros s IHs b IHb rho0 narrowed rho possible Erho Ho Hgn Hne.
+      intros s IHs b IHb rho0 narrowed rho possible Erho Ho Hgn Hne Hna.
       assert (Horho : oth rho) by (rewrite Erho; now apply others_app).
       set (S := get rho x) in *.
-      rewrite eval_block_cons. specialize (IHs rho Horho Hne). fold S in IHs.
-      destruct (eval_stmt acc narrow posof rho s) as [[res e] ft]. destruct IHs as [As [Bs Fs]].
+      rewrite eval_block_cons. specialize (IHs rho Horho Hne Hna). fold S in IHs.
+      destruct (eval_stmt acc narrow posof isany rho s) as [[res e] ft]. destruct IHs as [As [Bs Fs]].
       rewrite (map_ext _ _ (sem_block_cons_fst s b)), (flat_map_ext _ _ (sem_block_cons_snd s b)).
       destruct (forallb is_some res) eqn:Fall.
       + (* every member returns in s *)
@@ -934,31 +954,41 @@ Section Blocks.
           destruct Hin as [m0 [E Hm0]]. exists m0. split; auto. unfold NRs. now rewrite E. }
         destruct ft as [f|]; [|exfalso; destruct Hnone as [m0 [Hm0 E]]; rewrite (Fs m0 Hm0) in E; discriminate].
         destruct Fs as [Gf [Xf Nf]]. cbv beta iota zeta.
-        set (f' := if is_nil (somes res) then [] else only_removals rho f).
-        assert (Hlk : forall v, lookup (only_removals rho f) v = lookup f v).
-        { intros v. apply only_removals_lookup. intros ms Hl m Hm.
-          destruct (Nat.eq_dec v x) as [->|Hv].
+        set (f' := if is_nil (somes res) then [] else only_removals isany rho f).
+        assert (HnaS : existsb isany S = false).
+        { destruct (existsb isany S) eqn:Ee; auto. apply existsb_exists in Ee. destruct Ee as [m [Hm Em]].
+          rewrite (Hna m Hm) in Em. discriminate. }
+        assert (Hsub : forall v ms, lookup f v = Some ms -> forall m, In m ms -> In m (get rho v)).
+        { intros v ms Hl m Hm. destruct (Nat.eq_dec v x) as [->|Hv].
           - assert (K : has_key f x = true) by (unfold has_key; now rewrite Hl).
             pose proof (xset_get_bound _ _ _ _ _ Xf K) as Hg. unfold get in Hg. rewrite Hl in Hg.
             apply Hg in Hm. apply filter_In in Hm. apply Hm.
           - rewrite (Gf v ms Hv Hl) in Hm. rewrite (Horho v Hv). exact Hm. }
+        assert (Hlk : forall v, lookup (only_removals isany rho f) v =
+                                if existsb isany (get rho v) then None else lookup f v).
+        { intros v. destruct (existsb isany (get rho v)) eqn:Ea.
+          - now apply only_removals_none.
+          - apply only_removals_lookup; auto. intros ms Hl. now apply Hsub. }
         assert (Hf' : gd f' /\ xs (f' ++ rho) (filter (NRs s) S)).
-        { unfold f'. destruct (somes res) as [|a0 l0] eqn:Es; cbn [is_nil];
-            [|split; [intros v ms Hv Hl; rewrite Hlk in Hl; eapply Gf; eauto|
-                      destruct Xf as [Of Sf]; split;
-                        [intros v Hv; rewrite get_app, Hlk, <- get_app; apply Of; auto|
-                         rewrite get_app, Hlk, <- get_app; exact Sf]]].
-          split; [apply good_nil|]. split; [exact Horho|].
-          intros z. change (get ([] ++ rho) x) with S. rewrite filter_In. split; [|tauto]. intros Hz. split; auto.
-          unfold NRs. destruct (fst (sem_stmt acc posof (sg z) s)) as [r0|] eqn:Er; auto. exfalso.
-          assert (Hin : In (Some r0) res) by (apply As; apply in_map_iff; exists z; auto).
-          apply somes_in in Hin. rewrite Es in Hin. contradiction. }
+        { unfold f'. destruct (somes res) as [|a0 l0] eqn:Es; cbn [is_nil].
+          - split; [apply good_nil|]. split; [exact Horho|].
+            intros z. change (get ([] ++ rho) x) with S. rewrite filter_In. split; [|tauto]. intros Hz. split; auto.
+            unfold NRs. destruct (fst (sem_stmt acc posof (sg z) s)) as [r0|] eqn:Er; auto. exfalso.
+            assert (Hin : In (Some r0) res) by (apply As; apply in_map_iff; exists z; auto).
+            apply somes_in in Hin. rewrite Es in Hin. contradiction.
+          - destruct Xf as [Of Sf]. split; [|split].
+            + intros v ms Hv Hl. rewrite Hlk in Hl. destruct (existsb isany (get rho v)); [discriminate|]. eapply Gf; eauto.
+            + intros v Hv. rewrite get_app, Hlk. destruct (existsb isany (get rho v)).
+              * apply Horho; auto.
+              * destruct (lookup f v) as [ms|] eqn:El; [rewrite (Gf v ms Hv El); reflexivity|apply Horho; auto].
+            + rewrite get_app, Hlk. fold S. rewrite HnaS. rewrite get_app in Sf. exact Sf. }
         destruct Hf' as [Gf' Xf'].
         assert (HS' : seteq (get (f' ++ rho) x) (filter (NRs s) S)) by (apply Xf').
         assert (Nf' : nonempty (get (f' ++ rho) x)) by (destruct Nf as [z Hz]; exists z; now apply HS').
         assert (E' : f' ++ rho = (f' ++ narrowed) ++ rho0) by (rewrite Erho; apply app_assoc).
-        specialize (IHb rho0 (f' ++ narrowed) (f' ++ rho) (possible ++ somes res) E' Ho (good_app _ _ _ _ Gf' Hgn) Nf').
-        destruct (eval_block acc narrow posof (f' ++ rho) b (possible ++ somes res) (f' ++ narrowed)) as [[res' e'] ft'].
+        assert (Af' : noany (get (f' ++ rho) x)) by (intros m Hm; apply HS' in Hm; apply filter_In in Hm; apply Hna; tauto).
+        specialize (IHb rho0 (f' ++ narrowed) (f' ++ rho) (possible ++ somes res) E' Ho (good_app _ _ _ _ Gf' Hgn) Nf' Af').
+        destruct (eval_block acc narrow posof isany (f' ++ rho) b (possible ++ somes res) (f' ++ narrowed)) as [[res' e'] ft'].
         destruct IHb as [Ab [Bb Fb]].
         assert (HinS' : forall m, In m (get (f' ++ rho) x) <-> In m S /\ fst (sem_stmt acc posof (sg m) s) = None).
         { intros m. rewrite (HS' m), filter_In. unfold NRs. destruct (fst (sem_stmt acc posof (sg m) s)); simpl; intuition discriminate. }
@@ -996,14 +1026,14 @@ End Blocks.
    members, for every body *)
 Theorem union_distributes : union_distributes_full_statement.
 Proof.
-  intros acc narrow posof H1 rho x ms body dflt Hne Hoth.
+  intros acc narrow posof isany H1 rho x ms body dflt Hne Hnoany Hoth.
   set (sigma := fun v => hd 0 (get rho v)).
   assert (Hs : forall v, v <> x -> get rho v = [sigma v]).
   { intros v Hv. destruct (Hoth v Hv) as [m Hm]. unfold sigma. rewrite Hm. reflexivity. }
   set (sg := sig_m x sigma).
-  assert (Hmember : forall m, evaluate acc narrow posof ((x, [m]) :: rho) body dflt =
+  assert (Hmember : forall m, evaluate acc narrow posof isany ((x, [m]) :: rho) body dflt =
                                sem_evaluate acc posof (sg m) body dflt).
-  { intros m. apply (evaluate_single acc narrow posof H1 (sg m)).
+  { intros m. apply (evaluate_single acc narrow posof isany H1 (sg m)).
     intros v. unfold get. simpl. destruct (x =? v) eqn:E.
     - apply Nat.eqb_eq in E. subst v. unfold sg, sig_m. now rewrite Nat.eqb_refl.
     - apply Nat.eqb_neq in E. assert (Hv : v <> x) by congruence. unfold sg, sig_m.
@@ -1015,10 +1045,11 @@ Proof.
   assert (Hg : get ((x, ms) :: rho) x = ms) by (unfold get; simpl; now rewrite Nat.eqb_refl).
   assert (Hn : nonempty (get ((x, ms) :: rho) x)).
   { rewrite Hg. destruct ms as [|m ms']; [congruence|]. exists m. now left. }
-  pose proof (proj2 (blocks_all acc narrow posof H1 x sigma) body ((x, ms) :: rho) [] ((x, ms) :: rho) []
-                eq_refl Ho (good_nil x sigma) Hn) as HB.
+  assert (Hna : forall m, In m (get ((x, ms) :: rho) x) -> isany m = false) by (rewrite Hg; exact Hnoany).
+  pose proof (proj2 (blocks_all acc narrow posof isany H1 x sigma) body ((x, ms) :: rho) [] ((x, ms) :: rho) []
+                eq_refl Ho (good_nil x sigma) Hn Hna) as HB.
   unfold evaluate at 1 3.
-  destruct (eval_block acc narrow posof ((x, ms) :: rho) body [] []) as [[res errs] ft].
+  destruct (eval_block acc narrow posof isany ((x, ms) :: rho) body [] []) as [[res errs] ft].
   destruct HB as [A [B _]]. rewrite Hg in A, B. cbn [map app] in A. cbn [fst snd]. split.
   - intros z. rewrite (nodupn_seteq _ z), in_map_iff, in_flat_map. split.
     + intros [o [<- Ho']]. apply A in Ho'. apply in_map_iff in Ho'. destruct Ho' as [m [<- Hm]].
